@@ -16,6 +16,7 @@
 #include <tbox/network/tcp_client.h>
 #include <tbox/network/sockaddr.h>
 #include <tbox/network/ip_address.h>
+#include <tbox/event/timer_event.h>
 #include <sys/socket.h>
 #include <sys/un.h>
 #include <sys/ioctl.h>
@@ -35,17 +36,17 @@ using tbox::network::SockAddr;
 
 namespace {
 
-enum { CFG, CONS, SEND, ENABLE, DISABLE, CONNECT, PREAD, PAUTO, IDLE, PWRITE, PSHUT, DISC, THR, SHRINK, BUFSZ, CBSEND, PEEK, WAITSC, NOPS };
+enum { CFG, CONS, SEND, ENABLE, DISABLE, CONNECT, PREAD, PAUTO, IDLE, PWRITE, PSHUT, DISC, THR, SHRINK, BUFSZ, CBSEND, PEEK, WAITSC, PFIN, NOPS };
 const std::vector<const char*> kOpNames = {"cfg", "cons", "send", "enable", "disable", "connect", "pread", "pauto", "idle", "pwrite",
-                                           "pshut", "disc", "thr", "shrink", "bufsz", "cbsend", "peek", "waitsc"};
-const std::vector<int> kOpArity = {8, 2, 3, 0, 1, 0, 2, 2, 1, 3, 2, 2, 2, 2, 3, 3, 2, 2};
+                                           "pshut", "disc", "thr", "shrink", "bufsz", "cbsend", "peek", "waitsc", "pfin"};
+const std::vector<int> kOpArity = {8, 2, 3, 0, 1, 0, 2, 2, 1, 3, 2, 2, 2, 2, 3, 3, 2, 2, 6};
 
 // per-case caps (keep every case far below the watchdog)
 const uint64_t kBudgetOut = 3u << 20;       // bytes handed to send() per case (all connections)
 const uint64_t kBudgetIn = 3u << 19;        // bytes written by the peers per case
 const size_t kMaxOne = (1u << 20) + 4096;   // one send / one peer write
 const int kMaxDrainPasses = 60000;
-const int kTcpKernelWaitMs = 20000;         // see kernel_holds_bytes()
+const int kTcpKernelWaitMs = 8000;          // see kernel_holds_bytes()
 
 // the liveness half of "send-complete" (it does fire once everything accepted was written) is pinned by the unit tests
 // BufferedFd.sendComplete_LittleData / _HugeData; the statement itself only has the "fires only when" half
@@ -125,7 +126,7 @@ const std::string &scratch_dir() {
 }
 
 // ---- model ------------------------------------------------------------------------------------------
-struct Act { int where; int kind; size_t n; };   // where: 1 receive cb, 2 send-complete cb, 3 closed cb; kind: 0 send, 1 disconnect, 2 shrink recv, 3 shrink send, 4 disable
+struct Act { int where; int kind; size_t n; int target = -1; int count = 1; };   // where: 1 receive cb, 2 send-complete cb, 3 closed cb; kind: 0 send, 1 disconnect, 2 shrink recv, 3 shrink send, 4 disable, 5 `count` sends of n bytes on connection `target`
 
 struct Conn {
   int idx = 0;
@@ -162,6 +163,11 @@ struct Conn {
   bool peer_shut = false, peer_closed = false;
   int close_reports = 0;
   bool err_seen = false;
+  // pfin: the peer wrote its last bytes and closed/reset in one go and the tbox side sent right away (before the loop could read):
+  // in_floor = what the local kernel demonstrably held for the tbox side at that moment (consumed + buffered + FIONREAD of its
+  // socket; unix: everything) — a send to a closed TCP peer makes the peer's kernel discard what it had not transmitted yet,
+  // so for TCP only this much is guaranteed to be deliverable
+  bool has_floor = false; uint64_t in_floor = 0;
   bool bound = false;                // bfd: bind(self) — everything received is sent back, no receive callbacks
   std::vector<Act> acts;
 };
@@ -186,7 +192,8 @@ struct Engine {
   // shapes seen (classes / non-trivial rule)
   bool c_partial = false, c_eagain = false, c_before_enable = false, c_leftover_more = false, c_thr_held = false, c_sc = false,
        c_close_reported = false, c_close_pending_in = false, c_disc_in_cb = false, c_cb_send = false, c_disc = false, c_big = false,
-       c_err = false, c_cross = false, c_orderly = false, c_orderly_unread = false, c_orderly_unread_inet = false;
+       c_err = false, c_cross = false, c_orderly = false, c_orderly_unread = false, c_orderly_unread_inet = false, c_pfin = false,
+       c_pfin_send_before_read = false, c_pfin_send_before_read_tcp = false, c_pfin_send_in_cb = false;
 
   Engine(const Scenario &sc, CaseInfo &ci, const char *subname) : s(sc), info(ci), sub(subname), loop(tbox::event::Loop::New()), rbuf(1u << 16) {
     if (!s.ops.empty() && s.ops[0].code == CFG) cfg = &s.ops[0];
@@ -281,6 +288,7 @@ struct Engine {
       }
       else if (a.kind == 1) { ep_disconnect(c, true); c_disc_in_cb = true; }
       else if (a.kind == 4) op_disable();
+      else if (a.kind == 5) { if (a.target >= 0 && (size_t)a.target < conns.size()) sends_after_pfin(*conns[(size_t)a.target], a.count, a.n, true); }
       else ep_shrink(c, a.kind - 2);
     }
   }
@@ -358,12 +366,13 @@ struct Engine {
     if (c.close_reports == 1 && !c.tbox_gone && !c.bound) {
       if (rb) {
         size_t R = rb->readableSize();
-        if (c.in_cons + R != c.in_wrote)
+        if (c.has_floor ? c.in_cons + R < c.in_floor : c.in_cons + R != c.in_wrote)
           fail(tag(c) + std::string("peer close reported (") + how + ") when only " + std::to_string(c.in_cons + R) + " of the " + std::to_string(c.in_wrote) + " bytes the peer wrote before closing had been received (" + std::to_string(c.in_cons) + " consumed + " + std::to_string(R) + " in the receive buffer)");
         else if (R && mismatch(c.isalt, c.in_cons, rb->readableBegin(), R) >= 0) fail(tag(c) + "receive buffer content at the peer-close report is not the unconsumed part of the stream");
       }
-      uint64_t pending = c.in_wrote - c.in_cons;
-      if (c.in_hw != c.in_wrote && c.thr_stable && pending >= std::max<size_t>(c.thr, 1))
+      uint64_t need = c.has_floor ? c.in_floor : c.in_wrote;
+      uint64_t pending = need > c.in_cons ? need - c.in_cons : 0;
+      if (c.in_hw < need && c.thr_stable && pending >= std::max<size_t>(c.thr, 1))
         fail(tag(c) + std::string("peer close reported (") + how + ") before all data that preceded it was presented: the peer wrote " + std::to_string(c.in_wrote) + " bytes, receive callbacks saw the stream only up to offset " + std::to_string(c.in_hw) + " (" + std::to_string(c.in_cons) + " consumed, threshold " + std::to_string(c.thr) + ")");
     }
     c.tfd = -1; c.running = false;
@@ -395,6 +404,59 @@ struct Engine {
       size_t q_after = inq(c.prd);
       if (q_after < inflight_before + n) { if (q_after > q_before) c_partial = true; else c_eagain = true; }
     }
+  }
+
+  // the local sends that follow a pfin (outside a callback, from a timer callback, from another connection's receive callback)
+  void sends_after_pfin(Conn &c, int count, size_t m, bool in_cb) {
+    if (c.in_hw < c.in_wrote && c.close_reports == 0 && c.tbox_up && !c.tbox_gone) { c_pfin_send_before_read = true; if (c.inet) c_pfin_send_before_read_tcp = true; if (in_cb) c_pfin_send_in_cb = true; }
+    for (int i = 0; i < count; ++i) do_send(c, m, in_cb);
+  }
+  std::vector<tbox::event::TimerEvent*> timers;
+  void op_pfin(const Op &op) {
+    Conn *cp = pick(op); if (!cp) return;
+    Conn &c = *cp;
+    if (c.pwr < 0 || c.peer_shut || c.peer_closed || c.orderly || c.bound || !c.peer_sock) return;
+    int how = (int)op.in(1, 0, 1), via = (int)op.in(3, 0, 2), count = (int)op.in(4, 1, 3);
+    size_t n = (size_t)op.in(2, 1, 70000), m = (size_t)op.in(5, 1, 4000);
+    if (used_in + n > kBudgetIn) n = 1 + n % 1500;
+    used_in += n;
+    // via 2 (server): another connection's peer writes FIRST, so that its read event is dispatched before this connection's
+    Conn *other = nullptr;
+    if (via == 2) {
+      for (auto &x : conns) if (x.get() != &c && x->tbox_up && !x->tbox_gone && x->close_reports == 0 && x->pwr >= 0 && !x->peer_shut && !x->peer_closed && !x->orderly && !x->bound && x->peer_backlog == 0) { other = x.get(); break; }
+      if (!other || std::string(sub) != "server") via = 1;
+      else { other->peer_backlog = 1 + m % 64; peer_flush(*other); if (other->peer_backlog) { other->peer_backlog = 0; via = 1; } }
+    }
+    // the peer's last bytes ...
+    c.peer_backlog = 0;
+    std::unique_ptr<uint8_t[]> d(new uint8_t[n]); fill(c.isalt, c.in_wrote, d.get(), n);
+    ssize_t r = ::send(c.pwr, d.get(), n, MSG_NOSIGNAL | MSG_DONTWAIT);
+    if (r > 0) { c.in_wrote += (uint64_t)r; c.thr_stable = true; progress = true; }
+    // ... and its close: orderly, or a reset (TCP: SO_LINGER {on, 0}; unix: a close with unread input is a reset by itself)
+    if (how == 1 && c.inet) { struct linger lg = {1, 0}; setsockopt(c.pwr, SOL_SOCKET, SO_LINGER, &lg, sizeof lg); }
+    peer_close_fds(c); c.peer_closed = true;
+    c_pfin = true;
+    // what is guaranteed to be deliverable from here on
+    c.has_floor = true;
+    if (!c.inet) c.in_floor = c.in_wrote;
+    else {
+      Buffer *rb = (c.tbox_up && !c.tbox_gone) ? ep_rbuf(c) : nullptr;
+      c.in_floor = c.in_cons + (rb ? rb->readableSize() : 0) + (c.tfd >= 0 ? inq(c.tfd) : 0);
+      if (c.in_floor > c.in_wrote) c.in_floor = c.in_wrote;
+      if (c.in_floor < c.in_hw) c.in_floor = c.in_hw;
+    }
+    if (!c.tbox_up || c.tbox_gone || c.close_reports) return;
+    // the application writes before the loop gets to read
+    if (via == 0) sends_after_pfin(c, count, m, false);
+    else if (via == 1) {      // from a timer callback: timers are handled before the fd events of the next pass
+      Conn *t = &c;
+      auto *tm = loop->newTimerEvent("c06: heartbeat");
+      tm->initialize(std::chrono::milliseconds(1), tbox::event::Event::Mode::kOneshot);
+      tm->setCallback([this, t, count, m] { progress = true; if (t->tbox_up && !t->tbox_gone) sends_after_pfin(*t, count, m, true); });
+      tm->enable();
+      timers.push_back(tm);
+      clk.now += 2;
+    } else { Act a{1, 5, m}; a.target = c.idx; a.count = count; other->acts.push_back(a); }
   }
 
   size_t send_size(Conn &c, int mode, size_t n) {
@@ -467,6 +529,7 @@ struct Engine {
         else if (R && mismatch(c->isalt, c->in_cons, rb->readableBegin(), R) >= 0) fail(tag(*c) + "receive buffer content (looked at between two loop passes) is not the unconsumed part of the stream");
         else if (!c->bound) { size_t k = std::min((size_t)op.in(1, 0, 3000), R); if (k) { rb->hasRead(k); c->in_cons += k; c->left_unconsumed = k < R; } }   // the user may also consume between callbacks (getReceiveBuffer "for use on the spot")
         break; }
+      case PFIN: op_pfin(op); break;
       case WAITSC: { Conn *c = pick(op); if (c) { wait_conn = c; wait_left = (int)op.in(1, 1, 400); } break; }
       default: break;   // cfg / cons are definitions
     }
@@ -479,8 +542,12 @@ struct Engine {
         fail(what + "the peer's read failed with errno " + std::to_string(c.peer_rd_err) + " (" + strerror(c.peer_rd_err) + ") after " + std::to_string(c.out_got) + " bytes instead of delivering everything and ending with EOF (a reset discards what is still in the kernel's send queue)");
       else if (c.peer_eof && c.out_got != c.must_deliver)
         fail(what + "the peer read until EOF and got only " + std::to_string(c.out_got) + " bytes");
-      else if (!c.peer_eof)
-        fail(std::string(c.inet ? "TIMING: " : "") + what + "the peer got " + std::to_string(c.out_got) + " bytes and never saw EOF");
+      else if (!c.peer_eof) {
+        // TCP: the peer's socket is still ESTABLISHED (no FIN, no reset) and bytes are missing: the closed tbox socket lives on in the
+        // kernel and is still delivering (zero-window probing with back-off can take arbitrarily long) — not tbox's doing, inconclusive
+        if (c.inet && c.out_got < c.must_deliver && tcp_state(c.prd) == 1 /* TCP_ESTABLISHED */) { stats().counters["tcp_kernel_still_delivering_at_end"]++; info.cls("tcp_kernel_stall_inconclusive"); }
+        else fail(std::string(c.inet ? "TIMING: " : "") + what + "the peer got " + std::to_string(c.out_got) + " bytes and never saw EOF");
+      }
     }
     bool alive = c.tbox_up && !c.tbox_gone && !c.err_seen;
     if (!alive) return;
@@ -493,7 +560,12 @@ struct Engine {
       return;
     }
     if (c.can_write && c.prd >= 0) {
-      if (c.out_got != c.out_acc)
+      int outq = 0;
+      if (c.inet && c.out_got < c.out_acc && c.tfd >= 0 && ioctl(c.tfd, TIOCOUTQ, &outq) == 0 && outq > 0 && c.out_got + inq(c.prd) + (uint64_t)outq >= c.out_acc) {
+        // every missing byte sits in the send queue of the tbox socket: written by tbox, held back by the kernel (see kernel_holds_bytes)
+        stats().counters["tcp_kernel_still_delivering_at_end"]++; info.cls("tcp_kernel_stall_inconclusive");
+      }
+      else if (c.out_got != c.out_acc)
         fail(tag(c) + "send() accepted " + std::to_string(c.out_acc) + " bytes, the peer read until nothing more arrived and got only " + std::to_string(c.out_got) + " (neither side closed; " + std::to_string(c.sc_calls) + " send-complete notifications)");
       else if (kCheckSendCompleteFires && c.out_acc > c.acc_at_last_sc && !c.sc_excused)
         fail(tag(c) + "all " + std::to_string(c.out_acc) + " accepted bytes reached the peer but no send-complete notification followed the last send (last one fired at " + std::to_string(c.acc_at_last_sc) + " accepted bytes, " + std::to_string(c.sc_calls) + " in total)");
@@ -518,6 +590,7 @@ struct Engine {
   // Loopback TCP with a small receive window occasionally stalls on the kernel's zero-window probe timer (0.2 s, doubling): when the
   // missing bytes are demonstrably in the kernel's hands (send queue of the tbox socket not empty, or the socket already closed by an
   // orderly disconnect) the delay is not tbox's, and the harness waits much longer than for bytes that were never written
+  static int tcp_state(int fd) { struct tcp_info ti; socklen_t l = sizeof ti; memset(&ti, 0, sizeof ti); return (fd >= 0 && getsockopt(fd, IPPROTO_TCP, TCP_INFO, &ti, &l) == 0) ? (int)ti.tcpi_state : -1; }
   bool kernel_holds_bytes(Conn &c) {
     if (!c.inet) return false;
     if (c.orderly) return true;
@@ -568,7 +641,7 @@ struct Engine {
       phase = 2;
     }
     // tear down inside the loop thread, then let the loop run its deferred deletions
-    if (tear == 0) { teardown(); for (auto &c : conns) peer_close_fds(*c); }
+    if (tear == 0) { for (auto *t : timers) { t->disable(); delete t; } timers.clear(); teardown(); for (auto &c : conns) peer_close_fds(*c); }
     return ++tear < 4;
   }
 
@@ -576,6 +649,8 @@ struct Engine {
     static bool once = [] { signal(SIGPIPE, SIG_IGN); return true; }();
     (void)once;
     if (!setup()) {
+      for (auto *t : timers) delete t;
+      timers.clear();
       teardown(); for (auto &c : conns) peer_close_fds(*c);
       if (err.empty() || err.compare(0, 6, "INFRA:") == 0) { stats().counters["infra_skipped_case"]++; info.cls("skipped_infrastructure"); return ""; }   // e.g. no free loopback port
       return err;
@@ -596,6 +671,10 @@ struct Engine {
     info.cls_if(c_disc_in_cb, "tbox_disconnect_in_callback");
     info.cls_if(c_cb_send, "send_from_callback");
     info.cls_if(c_cross, "send_to_other_connection_from_callback");
+    info.cls_if(c_pfin, "peer_writes_and_closes_then_local_send");
+    info.cls_if(c_pfin_send_before_read, "local_send_hits_closed_peer_before_its_last_bytes_were_read");
+    info.cls_if(c_pfin_send_before_read_tcp, "local_send_hits_closed_peer_before_its_last_bytes_were_read_tcp");
+    info.cls_if(c_pfin_send_in_cb, "local_send_hits_closed_peer_before_its_last_bytes_were_read_from_a_callback");
     info.cls_if(c_orderly, "local_close_after_send_complete");
     info.cls_if(c_orderly_unread, "local_close_after_send_complete_with_bytes_unread_by_peer");
     info.cls_if(c_orderly_unread_inet, "local_close_after_send_complete_with_bytes_unread_by_peer_tcp");
@@ -976,6 +1055,8 @@ rc::Gen<Scenario> make_gen(int kind) {   // 0 bfd, 1 server, 2 client
     {4, mkop(IDLE, {rc::gen::weightedOneOf<int64_t>({{4, range(1, 4)}, {1, range(5, 40)}})})},
     {7, mkop(PWRITE, {conn, rc::gen::weightedOneOf<int64_t>({{5, rc::gen::just<int64_t>(0)}, {4, range(1, 4)}}), psize_gen()})},
     {1, mkop(PSHUT, {conn, range(0, 2)})},
+    {1, mkop(PFIN, {conn, range(0, 1), rc::gen::weightedOneOf<int64_t>({{2, range(1, 200)}, {3, range(201, 9000)}, {1, range(9001, 70000)}}), range(0, 2), range(1, 3),
+                                              rc::gen::weightedOneOf<int64_t>({{3, range(1, 64)}, {1, range(65, 4000)}})})},
     {1, mkop(DISC, {conn, range(0, 3)})},
     {2, mkop(THR, {conn, rc::gen::weightedOneOf<int64_t>({{3, range(0, 40)}, {2, range(41, 5000)}})})},
     {1, mkop(BUFSZ, {conn, range(0, 1), range(0, 3)})},
@@ -1001,7 +1082,7 @@ rc::Gen<Scenario> make_gen(int kind) {   // 0 bfd, 1 server, 2 client
     r.push_back(mk(PAUTO, {c, k2}));
     return r;
   }, conn, big, slow, range(0, 1), slow);
-  auto chunks = rc::gen::container<std::vector<std::vector<Op>>>(rc::gen::weightedOneOf<std::vector<Op>>({{20, single}, {(size_t)(kind == 0 ? 1 : 2), reply_close}}));
+  auto chunks = rc::gen::container<std::vector<std::vector<Op>>>(rc::gen::weightedOneOf<std::vector<Op>>({{(size_t)(kind == 0 ? 40 : 30), single}, {1, reply_close}}));
   auto body = rc::gen::map(chunks, [](std::vector<std::vector<Op>> cs) { std::vector<Op> v; for (auto &c : cs) for (auto &o : c) v.push_back(std::move(o)); return v; });
   return scenarioOf(head, body);
 }
